@@ -85,7 +85,8 @@ def build_fn(spec, dropped, located):
             body = body[:k] + text + '\n' + body[k:]
         else:
             raise ValueError(where)
-    sig = _name_return(sig, spec.ret)
+    if spec.ret:
+        sig = _name_return(sig, spec.ret)
     sig = re.sub(r'^pub\((crate|super)\)\s+', 'pub ', sig)
     text = (spec.attrs + '\n' if spec.attrs else '') + sig + '\n' + spec.contract.rstrip() + '\n' + body + '\n'
     return text, ex
